@@ -74,13 +74,18 @@ func kinds() []valueKind {
 		}},
 		{"LeafNode", true, sctree.Hooks{
 			Make: func(v string) statecache.Value {
-				return util.NewLeafNode(util.Path("ab"), util.Path("cd"+hex.EncodeToString([]byte(v))), 3, ssv([]byte(v)))
+				ln := util.NewLeafNode(util.Path("ab"), util.Path("cd"+hex.EncodeToString([]byte(v))), 3, ssv([]byte(v)))
+				ln.SetVersion(util.Sequence(4 + len(v))) // a copy carries origin and version, and they differ here
+				return ln
 			},
 			Read: func(v statecache.Value) string {
 				ln := v.(*util.LeafNode)
 				p, _ := hex.DecodeString(string(ln.Path[2:]))
 				if string(ln.Prefix) != "ab" || string(ln.Path[:2]) != "cd" || string(p) != string(ln.GetValueBytes()) {
 					return fmt.Sprintf("<corrupt leaf prefix=%q path=%q value=%q>", ln.Prefix, ln.Path, ln.GetValueBytes())
+				}
+				if ln.GetOrigin() != 3 || ln.GetVersion() != util.Sequence(4+len(p)) {
+					return fmt.Sprintf("<leaf %q with origin %d version %d, handed in with origin 3 version %d>", p, ln.GetOrigin(), ln.GetVersion(), 4+len(p))
 				}
 				return string(ln.GetValueBytes())
 			},
@@ -98,6 +103,8 @@ func kinds() []valueKind {
 			Make: func(v string) statecache.Value {
 				fn := util.NewFullNode(ssv([]byte(v)))
 				fn.PutChild('a', child(v))
+				fn.SetOrigin(7)
+				fn.SetVersion(util.Sequence(1<<40 + len(v)))
 				return fn
 			},
 			Read: func(v statecache.Value) string {
@@ -105,6 +112,9 @@ func kinds() []valueKind {
 				val := string(fn.GetValueBytes())
 				if string(fn.GetChild('a')) != string(child(val)) || fn.GetNumChildren() != 1 {
 					return fmt.Sprintf("<corrupt branch value=%q child=%x>", val, fn.GetChild('a'))
+				}
+				if fn.GetOrigin() != 7 || fn.GetVersion() != util.Sequence(1<<40+len(val)) {
+					return fmt.Sprintf("<branch %q with origin %d version %d, handed in with origin 7 version %d>", val, fn.GetOrigin(), fn.GetVersion(), 1<<40+len(val))
 				}
 				return val
 			},
@@ -119,13 +129,19 @@ func kinds() []valueKind {
 		}},
 		{"ExtensionNode", true, sctree.Hooks{
 			Make: func(v string) statecache.Value {
-				return util.NewExtensionNode(util.Path(hex.EncodeToString([]byte(v))), child(v))
+				en := util.NewExtensionNode(util.Path(hex.EncodeToString([]byte(v))), child(v))
+				en.SetOrigin(11)
+				en.SetVersion(12)
+				return en
 			},
 			Read: func(v statecache.Value) string {
 				en := v.(*util.ExtensionNode)
 				p, _ := hex.DecodeString(string(en.Path))
 				if string(en.NodeKey) != string(child(string(p))) {
 					return fmt.Sprintf("<corrupt extension path=%q key=%x>", en.Path, en.NodeKey)
+				}
+				if en.GetOrigin() != 11 || en.GetVersion() != 12 {
+					return fmt.Sprintf("<extension %q with origin %d version %d, handed in with 11 and 12>", p, en.GetOrigin(), en.GetVersion())
 				}
 				return string(p)
 			},
